@@ -212,6 +212,13 @@ class _C13(Spec):
                 lreqs.append("ival parseclosed " + hexs(s))
                 lreqs.append("ival parselist " + hexs(s + " "))
                 lreqs.append("ival parselist " + hexs(s.replace(" ", "  ")))
+                # one token replaced by a reversed text, in every position
+                toks = s.split(" ")
+                for pos in range(len(toks)):
+                    for bad in ("2-1", "2-1]", "1--1", "0--2]", "-(1-2)", "-(1-2])", "5-3"):
+                        t2 = toks[:pos] + [bad] + toks[pos + 1:]
+                        lreqs.append("ival parselist " + hexs(" ".join(t2)))
+                        lreqs.append("ival parseclosed " + hexs(" ".join(t2)))
         sts.append(Stream("ival-list-text", lreqs, compare=cmpf))
         breqs = []
         univ = list(range(-5, 6))
